@@ -84,9 +84,13 @@ func ruleObjStmIndexGuard(c *eng.Ctx) {
 				return
 			}
 			fr, ok := eng.LoadOfField(ia.X)
-			if !ok || fr.Field != "offsets" {
+			if !ok || fr.Struct != "core.ObjectStream" {
 				return
 			}
+			if _, isSl := ia.X.Type().Underlying().(*types.Slice); !isSl {
+				return
+			}
+			table := fr.Field
 			if _, isInd := eng.Induction(ia.Index); isInd {
 				return // a loop over the table itself
 			}
@@ -119,7 +123,7 @@ func ruleObjStmIndexGuard(c *eng.Ctx) {
 						return false
 					}
 					fr2, ok := eng.LoadOfField(call.Call.Args[0])
-					return ok && fr2.Field == "offsets"
+					return ok && (fr2.Field == table || (fr2.Struct == fr.Struct && lockstepFields(c.P, fr.Struct, fr2.Field, table)))
 				}
 			}
 			ok2 := eng.GuardedBy(h, ia.Block(), guard(ia.Index, base))
@@ -147,12 +151,87 @@ func ruleObjStmIndexGuard(c *eng.Ctx) {
 				})
 				ok2 = sites > 0 && all
 			}
-			c.Check(ok2, R, fmt.Sprintf("%s#offsets-index%d", eng.FuncName(h), n), ia.Pos(), "guarded by len(offsets)", "the offset table is indexed without comparing the index with len(offsets): after a header that failed half way the table is shorter than /N and the access panics")
+			c.Check(ok2, R, fmt.Sprintf("%s#offsets-index%d", eng.FuncName(h), n), ia.Pos(), "guarded by the length of the indexed table", "the offset table ("+table+") is indexed without comparing the index with its length (or the length of a slice filled in lockstep with it): after a header that failed half way the table is shorter than /N and the access panics")
 		})
 	}
 	if n == 0 {
 		c.Undec(R, "core.(*ObjectStream).GetObjectByIndex#offsets-index", fn.Pos(), "no parameter-indexed access of the offset table found")
 	}
+}
+
+// lockstepFields: the slice fields a and b of the struct always have the same length: every store to one of them has a
+// store of the same kind (nil, make, append of one element) to the other in the same basic block, module-wide.
+func lockstepFields(p *eng.Prog, st string, a, b string) bool {
+	if a == b {
+		return true
+	}
+	type ev struct {
+		blk  *ssa.BasicBlock
+		kind string
+	}
+	collect := func(field string) (out []ev, ok bool) {
+		ok = true
+		for _, fn := range p.ModuleFuncs() {
+			eng.Instrs(fn, true, func(in ssa.Instruction) {
+				sto, isSt := in.(*ssa.Store)
+				if !isSt {
+					return
+				}
+				fr, isF := eng.AsField(sto.Addr)
+				if !isF || fr.Struct != st || fr.Field != field {
+					return
+				}
+				kind := ""
+				switch v := sto.Val.(type) {
+				case *ssa.Const:
+					if v.IsNil() {
+						kind = "nil"
+					}
+				case *ssa.MakeSlice:
+					if k, isC := eng.ConstInt(v.Len); isC && k == 0 {
+						kind = "empty"
+					}
+				case *ssa.Call:
+					if bi, isB := v.Call.Value.(*ssa.Builtin); isB && bi.Name() == "append" && len(v.Call.Args) == 2 {
+						if f0, ok := eng.LoadOfField(v.Call.Args[0]); ok && f0.Field == field {
+							// the appended slice literal has one element
+							if sl, ok := v.Call.Args[1].(*ssa.Slice); ok {
+								if al, ok := sl.X.(*ssa.Alloc); ok {
+									if at, ok := al.Type().(*types.Pointer).Elem().Underlying().(*types.Array); ok && at.Len() == 1 {
+										kind = "append1"
+									}
+								}
+							}
+						}
+					}
+				}
+				if kind == "" {
+					ok = false
+				}
+				out = append(out, ev{in.Block(), kind})
+			})
+		}
+		return
+	}
+	ea, oka := collect(a)
+	eb, okb := collect(b)
+	if !oka || !okb || len(ea) == 0 || len(ea) != len(eb) {
+		return false
+	}
+	used := make([]bool, len(eb))
+	for _, x := range ea {
+		found := false
+		for j, y := range eb {
+			if !used[j] && x.blk == y.blk && x.kind == y.kind {
+				used[j], found = true, true
+				break
+			}
+		}
+		if !found {
+			return false
+		}
+	}
+	return true
 }
 
 // R4.7 [C04]: deep resolution builds copies
